@@ -119,7 +119,7 @@ def oracle_forward(inp):
 
 def oracle_inverse(inp):
     s = mk(inp['fmt'], 0, inp['m'], inp['b'], inp['k1'], inp['k2'])
-    v = s.convert_sensor_raw_to_value(inp['raw'])
+    v = attempt(lambda: s.convert_sensor_raw_to_value(inp['raw']))
     r = attempt(lambda: s.convert_sensor_value_to_raw(v))
     if r != inp['raw'] or isinstance(r, bool):
         return 'raw %d (%s) M=%d B=%d K1=%d K2=%d: value %r converts back to %r' % (
@@ -130,7 +130,9 @@ def oracle_inverse(inp):
 def oracle_lin(inp):
     code = inp['lin']
     s = mk(inp['fmt'], code, inp['m'], inp['b'], inp['k1'], inp['k2'])
-    base = mk(inp['fmt'], 0, inp['m'], inp['b'], inp['k1'], inp['k2']).convert_sensor_raw_to_value(inp['raw'])
+    base = attempt(lambda: mk(inp['fmt'], 0, inp['m'], inp['b'], inp['k1'], inp['k2']).convert_sensor_raw_to_value(inp['raw']))
+    if not isinstance(base, float):
+        return 'linear conversion needed as reference returned %r' % (base,)
     got = attempt(lambda: s.convert_sensor_raw_to_value(inp['raw']))
     want = attempt(lambda: REF[code & 0x7f](base))
     if isinstance(want, Exception):
@@ -148,7 +150,63 @@ def oracle_none(inp):
     return None if r is None else 'an absent reading converts to %r' % (r,)
 
 
-ORACLES = {'forward': oracle_forward, 'inverse': oracle_inverse, 'lin': oracle_lin, 'none': oracle_none}
+def judge_call(obj, c):
+    """one conversion on an existing object, judged as if it were the only conversion ever made
+    (the specification has no memory): returns None or (key, message)"""
+    fmt, lin, m, b, k1, k2 = (c['p'][k] for k in ('fmt', 'lin', 'm', 'b', 'k1', 'k2'))
+    desc = 'fmt=%d lin=%d M=%d B=%d K1=%d K2=%d' % (fmt, lin, m, b, k1, k2)
+    if c['op'] == 'none':
+        r = attempt(lambda: obj.convert_sensor_raw_to_value(None))
+        return None if r is None else ('convert_sensor_raw_to_value:none', 'an absent reading converts to %r (%s)' % (r, desc))
+    raw = c['raw']
+    x = signed(fmt, raw)
+    if c['op'] == 'fwd':
+        got = attempt(lambda: obj.convert_sensor_raw_to_value(raw))
+        code = lin & 0x7f
+        if code > 11:
+            ok = isinstance(got, Exception)
+            want = 'DecodingError'
+        elif code == 0:
+            ok = within(got, m, b, k1, k2, x)
+            want = exact_scaled(m, b, k1, k2, x) / SCALE
+        else:
+            base = exact_scaled(m, b, k1, k2, x) / SCALE
+            want = attempt(lambda: REF[code](base))
+            if isinstance(want, Exception):
+                ok = isinstance(got, (ValueError, ZeroDivisionError, OverflowError))
+            else:
+                ok = isinstance(got, float) and (got == want or abs(got - want) <= 1e-9 * abs(want) + 1e-12)
+        if not ok:
+            key = 'convert_sensor_raw_to_value:formula' if code == 0 else 'lin:%s' % LIN_NAMES[min(code, 11)] if code < 12 else 'lin:unknown-code'
+            return key, 'raw %d (x=%d) %s converts to %r, expected %r' % (raw, x, desc, got, want)
+        return None
+    # 'rt': value and back (linear, M != 0)
+    v = attempt(lambda: obj.convert_sensor_raw_to_value(raw))
+    r = attempt(lambda: obj.convert_sensor_value_to_raw(v))
+    if r != raw or isinstance(r, bool):
+        return 'convert_sensor_value_to_raw:not-inverse', 'raw %d %s: value %r converts back to %r' % (raw, desc, v, r)
+    return None
+
+
+def oracle_conv_seq(inp):
+    """conversions on several record objects in ONE process in the given order; an object is
+    created on first use and re-configured (attributes assigned) when its parameters change"""
+    objs = {}
+    for n, c in enumerate(inp['calls']):
+        o = objs.get(c['obj'])
+        if o is None:
+            o = objs[c['obj']] = mk(**c['p'])
+        else:
+            o.analog_data_format, o.linearization = c['p']['fmt'], c['p']['lin']
+            o.m, o.b, o.k1, o.k2 = c['p']['m'], c['p']['b'], c['p']['k1'], c['p']['k2']
+        r = judge_call(o, c)
+        if r:
+            return r[0], 'conversion %d of %d in this process: %s' % (n + 1, len(inp['calls']), r[1])
+    return None
+
+
+ORACLES = {'forward': oracle_forward, 'inverse': oracle_inverse, 'lin': oracle_lin, 'none': oracle_none,
+           'conv_seq': oracle_conv_seq}
 
 
 def replay(data):
@@ -173,11 +231,92 @@ def run(ctx):
         terms.append(term)
         meta.append(info)
 
-    def fail(key, what, oracle, inp):
-        if key not in fails:
-            fails[key] = C.Violation(key=key, what=what, replay={'oracle': oracle, 'input': inp})
+    budget = [6]
 
-    npairs = 40 if q else 400
+    def fail(key, what, oracle, inp):
+        """single-conversion failure: confirm it alone in a fresh interpreter; if it holds there the
+        failure depends on earlier conversions - look for a reproducing history"""
+        if key in fails or 'history:' + key in fails:
+            return
+        single = {'oracle': oracle, 'input': inp}
+        if budget[0] <= 0 or oracle == 'none' or not C.holds_in_fresh_process('C17', single):
+            fails[key] = C.Violation(key=key, what=what, replay=single)
+            return
+        budget[0] -= 1
+        p = {'fmt': inp['fmt'], 'lin': inp.get('lin', 0), 'm': inp['m'], 'b': inp['b'], 'k1': inp['k1'], 'k2': inp['k2']}
+        me = {'obj': 0, 'p': p, 'op': 'rt' if oracle == 'inverse' else 'fwd', 'raw': inp['raw']}
+        others = [{'obj': 1 + i, 'p': dict(p, lin=code, fmt=f), 'op': 'fwd', 'raw': inp['raw']}
+                  for i, (code, f) in enumerate((c, f) for c in range(12) for f in (0, 1, 2))]
+        for cand in ([me, me], others + [me], hist_log[-40:] + [dict(me, obj=-1)]):
+            seq = C.shrink_history('C17', 'conv_seq', cand)
+            if seq:
+                fails['history:' + key] = C.Violation(
+                    key='history:' + key,
+                    what='%s [correct alone in a fresh interpreter; fails after the %d earlier conversion(s) of the stored '
+                         'history]' % (what, len(seq) - 1),
+                    replay={'oracle': 'conv_seq', 'input': {'calls': seq}})
+                return
+        fails[key] = C.Violation(key=key, what=what + ' [holds when replayed alone; no reproducing history found]', replay=single)
+
+    # ---- 0. history stage (first): conversions on several objects in one process in varied order -
+    #      objects sharing M, B, K1, K2 but differing in linearisation / format, one object
+    #      re-configured between calls, the same call repeated; every call is judged by the
+    #      memory-less specification and (linear calls) re-evaluated in Coq
+    hist_log = []
+    for i in range(10 if q else 80):
+        m, b = rng.choice(BOUNDARY_PAIRS[:14] + [(rng.randint(-20, 20) or 1, rng.randint(-50, 50))])
+        k1, k2 = rng.choice([(0, 0), (-1, 0), (0, -1), (1, -2), (-2, 1), (0, 1)])
+        nobj = rng.randrange(2, 5)
+        calls = []
+        for j in range(rng.randrange(6, 16)):
+            if calls and rng.random() < 0.2:
+                c = dict(rng.choice(calls))                    # the same call again
+            else:
+                lin = rng.choice([0, 0, 0, rng.randrange(12), 0x80, 0x80 | rng.randrange(12), 12])
+                p = {'fmt': rng.randrange(3), 'lin': lin, 'm': m, 'b': b, 'k1': k1, 'k2': k2}
+                if rng.random() < 0.25:                        # another set of factors in between
+                    p['m'], p['b'] = rng.choice(BOUNDARY_PAIRS)
+                op = rng.choice(['fwd', 'fwd', 'rt', 'none']) if lin & 0x7f == 0 else rng.choice(['fwd', 'fwd', 'none'])
+                raw = rng.choice([0, 1, 2, 127, 128, 200, 254, rng.randrange(256)])
+                if op == 'rt' and p['fmt'] == 1 and raw == 255:
+                    raw = 254
+                c = {'obj': i * 10 + rng.randrange(nobj), 'p': p, 'op': op, 'raw': raw}
+            calls.append(c)
+        objs = {}
+        for c in calls:
+            o = objs.get(c['obj'])
+            if o is None:
+                o = objs[c['obj']] = mk(**c['p'])
+            else:
+                o.analog_data_format, o.linearization = c['p']['fmt'], c['p']['lin']
+                o.m, o.b, o.k1, o.k2 = c['p']['m'], c['p']['b'], c['p']['k1'], c['p']['k2']
+            r = judge_call(o, c)
+            res.evaluations += 1
+            hist_log.append(c)
+            if r and r[0] not in fails and 'history:' + r[0] not in fails:
+                alone = {'oracle': 'conv_seq', 'input': {'calls': [c]}}
+                if not C.holds_in_fresh_process('C17', alone):
+                    fails[r[0]] = C.Violation(key=r[0], what=r[1], replay=alone)
+                else:
+                    seq = C.shrink_history('C17', 'conv_seq', list(hist_log)) or list(hist_log)
+                    fails['history:' + r[0]] = C.Violation(
+                        key='history:' + r[0],
+                        what='%s [correct alone in a fresh interpreter; fails after the %d earlier conversion(s) of the stored '
+                             'history]' % (r[1], len(seq) - 1),
+                        replay={'oracle': 'conv_seq', 'input': {'calls': seq}})
+            if c['op'] != 'none' and c['p']['lin'] & 0x7f == 0:
+                # the same call against the stateless Coq models
+                v = attempt(lambda: o.convert_sensor_raw_to_value(c['raw']))
+                if isinstance(v, float):
+                    back = attempt(lambda: o.convert_sensor_value_to_raw(v))
+                    n_, e_ = fl(v)
+                    pp = c['p']
+                    add('chk_conv %s %s' % (coq_sensor(pp['fmt'], pp['lin'], pp['m'], pp['b'], pp['k1'], pp['k2']),
+                                            C.c_list(['(%d, (%s, %s), %s)' % (c['raw'], C.c_Z(n_), C.c_Z(e_), coq_res(back))])),
+                        ('history', c))
+        D.add(('history', i), True, 'history-sequence')
+
+    npairs = 40 if q else 200
     pairs = list(BOUNDARY_PAIRS)
     while len(pairs) < npairs:
         p = (rng.randint(-512, 511), rng.randint(-512, 511))
@@ -186,7 +325,7 @@ def run(ctx):
     exps = [(k1, k2) for k1 in range(-8, 8) for k2 in range(-8, 8)]
     extra = []
     if not q:   # every M with boundary B for the reduced exponent set
-        extra = [((m, b), (k1, k2)) for m in range(-512, 512) if m for b in (0, 1, -1, 3, 511, -512, 100, -37)
+        extra = [((m, b), (k1, k2)) for m in range(-512, 512) if m for b in (0, 3, 511, -512)
                  for k1 in (-1, 0, 1) for k2 in (-1, 0, 1)]
 
     # ---- 1. oracle: the whole domain, exact integer arithmetic ----
@@ -197,11 +336,15 @@ def run(ctx):
             bt, p2 = b * 10 ** (k1 + 8), 10 ** (k2 + 8)
             for raw in range(256):
                 x = raw if raw < 128 or fmt == 0 else raw - 255 if fmt == 1 else raw - 256
-                v = conv(raw)
-                num, den = v.as_integer_ratio()
+                try:
+                    v = conv(raw)
+                    num, den = v.as_integer_ratio()
+                except Exception:  # noqa  (an exception or a non-float result is a wrong result)
+                    v, num, den = None, 1, 0
                 ex = (m * x * 10 ** 8 + bt) * p2
                 mg = (abs(m * x) * 10 ** 8 + abs(bt)) * p2
-                if (abs(num * SCALE - ex * den) << 50) > mg * den and 'convert_sensor_raw_to_value:formula' not in fails:
+                if (den == 0 or (abs(num * SCALE - ex * den) << 50) > mg * den) and \
+                        'convert_sensor_raw_to_value:formula' not in fails and 'history:convert_sensor_raw_to_value:formula' not in fails:
                     inp = {'fmt': fmt, 'm': m, 'b': b, 'k1': k1, 'k2': k2, 'raw': raw}
                     fail('convert_sensor_raw_to_value:formula', oracle_forward(inp) or 'tolerance', 'forward', inp)
                 if fmt == 1 and raw == 255:
@@ -210,7 +353,8 @@ def run(ctx):
                     r = back(v)
                 except Exception:  # noqa
                     r = None
-                if r != raw and 'convert_sensor_value_to_raw:not-inverse' not in fails:
+                if r != raw and 'convert_sensor_value_to_raw:not-inverse' not in fails and \
+                        'history:convert_sensor_value_to_raw:not-inverse' not in fails:
                     inp = {'fmt': fmt, 'm': m, 'b': b, 'k1': k1, 'k2': k2, 'raw': raw}
                     fail('convert_sensor_value_to_raw:not-inverse', oracle_inverse(inp) or 'inverse', 'inverse', inp)
         res.evaluations += 2 * 768
@@ -268,7 +412,7 @@ def run(ctx):
             probes = (0.5, 2.0, 3.0)
             tag = 254
             for t, ref in REF.items():
-                if all(abs(f(p) - ref(p)) <= 1e-12 * abs(ref(p)) for p in probes):
+                if attempt(lambda: all(abs(f(p) - ref(p)) <= 1e-12 * abs(ref(p)) for p in probes)) is True:
                     tag = t
                     break
         tags[code] = tag
@@ -286,12 +430,17 @@ def run(ctx):
         s = mk(fmt, 0, m, b, k1, k2)
         raws = sorted(set([0, 1, 127, 128, 129, 254, 255] + [rng.randrange(256) for _ in range(25)]))
         items = []
+        broken = False
         for raw in raws:
-            v = s.convert_sensor_raw_to_value(raw)
+            v = attempt(lambda: s.convert_sensor_raw_to_value(raw))
+            if not isinstance(v, float) or v != v or abs(v) == float('inf'):
+                broken = True            # the model always yields a finite float here
+                continue
             back = attempt(lambda: s.convert_sensor_value_to_raw(v))
             n, e = fl(v)
             items.append('(%d, (%s, %s), %s)' % (raw, C.c_Z(n), C.c_Z(e), coq_res(back)))
-        add('chk_conv %s %s' % (coq_sensor(fmt, 0, m, b, k1, k2), C.c_list(items)), ('conv', fmt, m, b, k1, k2))
+        add('%schk_conv %s %s' % ('false && ' if broken else '', coq_sensor(fmt, 0, m, b, k1, k2), C.c_list(items)),
+            ('conv', fmt, m, b, k1, k2))
         D.add(('conv', fmt, m, b, k1, k2), True, 'conv-config')
     # inverse on arbitrary values (rounding ties, out-of-range, negative, other linearisations)
     for _ in range(600 if q else 6000):
@@ -317,12 +466,14 @@ def run(ctx):
     res.histogram = D.hist
     res.extra['pairs'] = len(pairs)
     res.extra['tolerance'] = '|float - exact| <= 2^-50 * (|M x| + |B| 10^K1) * 10^K2'
-    res.rule = ('oracle: all 256 raw x 3 formats x all 256 exponent pairs x %d (M,B) pairs (20 boundary + seeded)%s, '
+    res.rule = ('history stage first: sequences of 6..15 conversions on 2..4 record objects sharing M, B, K1, K2 but '
+                'differing in linearisation / format (objects re-configured, calls repeated), failures confirmed and shrunk in '
+                'a fresh interpreter; oracle: all 256 raw x 3 formats x all 256 exponent pairs x %d (M,B) pairs (20 boundary + seeded)%s, '
                 'forward within the stated tolerance of the exact formula and inverse(forward(raw)) == raw; M = 0 forward; '
                 'None; 24 linearisation codes x 5 parameter sets x 3 formats x 256 raw. Correspondence: %d configurations x '
                 '~30 readings (float model bit-exact, exact model within tolerance, float and exact inverse), inverse on '
                 'arbitrary values incl. ties and out-of-range, 10**k operands, code->function table. distinct = distinct '
-                '(M,B) pairs / configurations / values' % (len(pairs), '' if q else ' + every M x 8 B x 9 exponent pairs', len(cfgs)))
+                '(M,B) pairs / configurations / values' % (len(pairs), '' if q else ' + every M x 4 B x 9 exponent pairs', len(cfgs)))
     res.samples = [{'term': terms[i][:300], 'case': meta[i]} for i in (0, len(terms) // 3, len(terms) // 2, len(terms) - 1)]
     res.oracle_failures = list(fails.values())
     res.exhaustive = False
